@@ -223,7 +223,7 @@ func runHandshake(id int, sc *hsScript, configured bool) hsLine {
 	lg := &evlog{}
 	logsByConn.Store(reflect.ValueOf(mc).Pointer(), lg)
 	defer logsByConn.Delete(reflect.ValueOf(mc).Pointer())
-	l.Conform = sc.Kind != "eof" // the model has no peer disconnect
+	l.Conform = true
 	peerKind := func(kind string) string {
 		if kind == "ok" {
 			return "ok"
@@ -258,6 +258,7 @@ func runHandshake(id int, sc *hsScript, configured bool) hsLine {
 				if len(msgs) >= sc.At {
 					acted = true
 					if sc.Kind == "eof" {
+						lg.add(cnEvent{Ev: "peer.eof"})
 						mc.FeedErr(io.EOF)
 					} else {
 						lg.add(cnEvent{Ev: "peer", K: peerKind(sc.Kind)})
